@@ -837,6 +837,8 @@ def run(ctx):
     for (fn, var, attr, root), r in sorted(reads.items(), key=str):
         site = '%s:%s KmipEngine.%s' % (ENGINE, r['line'], fn)
         if r['missing']:
+            if ai.unresolved.get(root):
+                raise AnalysisError('unrecognised construct: %s tests a stored object against values that are not constants at that point (%s); which classes reach %s.%s cannot be decided' % (root, '; '.join(ai.unresolved[root][:3]), var, attr))
             ctx.fail('C13.R1', 'KmipEngine.%s|%s.%s|via %s' % (fn, var, attr, root), site,
                      'attribute %r is read on %s although the object may be a %s, which has no such attribute (AttributeError -> General Failure); call chain %s'
                      % (attr, var, '/'.join(sorted(r['missing'])), ' > '.join(r.get('bad_ctx', r['ctx']))))
